@@ -8,37 +8,44 @@ package connected
 // occur at increasing positions of the input list; with the distinctness of the input this orders all pairs) of g.Nodes (g.Edges) selected by the
 // set - exactly the order the component would have if it were the only input (C09), and independent of map iteration
 // order (C07).
+// nodePos / edgePos: ghost numberings. The contract holds for every numbering that agrees with the graph's lists
+// (requires[numbered]); for lists without duplicates one exists - the index itself - so "positions increase along the
+// component's lists" says that the component's lists are sub-lists of the graph's lists in the same order. (Stated
+// with a witness function instead of nested existentials: the existential form was proved too, but not under every
+// solver seed.)
+//@ spec nodePos(n *Node) int
+//@ spec edgePos(e *Edge) int
+
 //@ func subgraph
 //@   requires g != nil && ns != nil && es != nil
-//@   requires forall i int, j int :: 0 <= i && i < j && j < len(g.Nodes) ==> g.Nodes[i] != g.Nodes[j]
-//@   requires forall i int, j int :: 0 <= i && i < j && j < len(g.Edges) ==> g.Edges[i] != g.Edges[j]
+//@   requires[numbered] (forall i int :: 0 <= i && i < len(g.Nodes) ==> nodePos(g.Nodes[i]) == i) && (forall i int :: 0 <= i && i < len(g.Edges) ==> edgePos(g.Edges[i]) == i)
 //@   modifies DGraph.Nodes, DGraph.Edges, DGraph.Layers, Elems[*Node], Elems[*Edge], alloc
 //@   ensures[fresh] result != nil && !old(allocated(result))
-//@   ensures[nodes_selected] forall k int :: 0 <= k && k < len(result.Nodes) ==> (exists i int :: 0 <= i && i < len(g.Nodes) && result.Nodes[k] == g.Nodes[i] && ns[g.Nodes[i]])
+//@   ensures[nodes_selected] forall k int :: 0 <= k && k < len(result.Nodes) ==>
+//@       0 <= nodePos(result.Nodes[k]) && nodePos(result.Nodes[k]) < len(g.Nodes) && g.Nodes[nodePos(result.Nodes[k])] == result.Nodes[k] && ns[result.Nodes[k]]
 //@   ensures[nodes_complete] forall i int :: 0 <= i && i < len(g.Nodes) && ns[g.Nodes[i]] ==> (exists k int :: 0 <= k && k < len(result.Nodes) && result.Nodes[k] == g.Nodes[i])
-//@   ensures[nodes_ordered] forall k int :: 0 <= k && k + 1 < len(result.Nodes) ==>
-//@       (exists i int, j int :: 0 <= i && i < j && j < len(g.Nodes) && result.Nodes[k] == g.Nodes[i] && result.Nodes[k+1] == g.Nodes[j])
-//@   ensures[edges_selected] forall k int :: 0 <= k && k < len(result.Edges) ==> (exists i int :: 0 <= i && i < len(g.Edges) && result.Edges[k] == g.Edges[i] && es[g.Edges[i]])
+//@   ensures[nodes_ordered] forall k int, m int :: 0 <= k && m == k + 1 && m < len(result.Nodes) ==> nodePos(result.Nodes[k]) < nodePos(result.Nodes[m])
+//@   ensures[edges_selected] forall k int :: 0 <= k && k < len(result.Edges) ==>
+//@       0 <= edgePos(result.Edges[k]) && edgePos(result.Edges[k]) < len(g.Edges) && g.Edges[edgePos(result.Edges[k])] == result.Edges[k] && es[result.Edges[k]]
 //@   ensures[edges_complete] forall i int :: 0 <= i && i < len(g.Edges) && es[g.Edges[i]] ==> (exists k int :: 0 <= k && k < len(result.Edges) && result.Edges[k] == g.Edges[i])
-//@   ensures[edges_ordered] forall k int :: 0 <= k && k + 1 < len(result.Edges) ==>
-//@       (exists i int, j int :: 0 <= i && i < j && j < len(g.Edges) && result.Edges[k] == g.Edges[i] && result.Edges[k+1] == g.Edges[j])
+//@   ensures[edges_ordered] forall k int, m int :: 0 <= k && m == k + 1 && m < len(result.Edges) ==> edgePos(result.Edges[k]) < edgePos(result.Edges[m])
 //@   ensures[input_kept] len(g.Nodes) == old(len(g.Nodes)) && len(g.Edges) == old(len(g.Edges))
 //@       && (forall i int :: 0 <= i && i < len(g.Nodes) ==> g.Nodes[i] == old(g.Nodes[i])) && (forall i int :: 0 <= i && i < len(g.Edges) ==> g.Edges[i] == old(g.Edges[i]))
+//@   ensures[lists_fresh] (result.Nodes == nil || !old(allocatedArrId(now(arr(result.Nodes))))) && (result.Edges == nil || !old(allocatedArrId(now(arr(result.Edges)))))
 //@   loop range(g.Nodes)#1 index a
 //@     invariant sub != nil && sub != g && !old(allocated(now(sub))) && g.Nodes == old(g.Nodes) && g.Edges == old(g.Edges)
 //@     invariant forall i int :: 0 <= i && i < len(g.Nodes) ==> g.Nodes[i] == old(g.Nodes[i])
-//@     invariant forall i int :: 0 <= i && i < len(g.Edges) ==> g.Edges[i] == old(g.Edges[i])
 //@     invariant sub.Nodes == nil || (allocatedArr(sub.Nodes) && !old(allocatedArrId(now(arr(sub.Nodes)))))
-//@     invariant forall k int :: 0 <= k && k < len(sub.Nodes) ==> (exists i int :: 0 <= i && i < a && sub.Nodes[k] == g.Nodes[i] && ns[g.Nodes[i]])
+//@     invariant forall k int :: 0 <= k && k < len(sub.Nodes) ==>
+//@       0 <= nodePos(sub.Nodes[k]) && nodePos(sub.Nodes[k]) < a && g.Nodes[nodePos(sub.Nodes[k])] == sub.Nodes[k] && ns[sub.Nodes[k]]
 //@     invariant forall i int :: 0 <= i && i < a && ns[g.Nodes[i]] ==> (exists k int :: 0 <= k && k < len(sub.Nodes) && sub.Nodes[k] == g.Nodes[i])
-//@     invariant forall k int :: 0 <= k && k + 1 < len(sub.Nodes) ==>
-//@       (exists i int, j int :: 0 <= i && i < j && j < a && sub.Nodes[k] == g.Nodes[i] && sub.Nodes[k+1] == g.Nodes[j])
+//@     invariant forall k int, m int :: 0 <= k && m == k + 1 && m < len(sub.Nodes) ==> nodePos(sub.Nodes[k]) < nodePos(sub.Nodes[m])
 //@     invariant sub.Edges == nil
 //@   loop range(g.Edges)#1 index b
 //@     invariant sub != nil && sub != g && !old(allocated(now(sub))) && g.Nodes == old(g.Nodes) && g.Edges == old(g.Edges) && sub.Nodes == loopold(sub.Nodes)
 //@     invariant[frame] forall t []*Edge, j int :: loopold(allocatedArrId(arr(t))) ==> t[j] == loopold(t[j])
 //@     invariant sub.Edges == nil || (allocatedArr(sub.Edges) && !loopold(allocatedArrId(now(arr(sub.Edges)))))
-//@     invariant forall k int :: 0 <= k && k < len(sub.Edges) ==> (exists i int :: 0 <= i && i < b && sub.Edges[k] == g.Edges[i] && es[g.Edges[i]])
+//@     invariant forall k int :: 0 <= k && k < len(sub.Edges) ==>
+//@       0 <= edgePos(sub.Edges[k]) && edgePos(sub.Edges[k]) < b && g.Edges[edgePos(sub.Edges[k])] == sub.Edges[k] && es[sub.Edges[k]]
 //@     invariant forall i int :: 0 <= i && i < b && es[g.Edges[i]] ==> (exists k int :: 0 <= k && k < len(sub.Edges) && sub.Edges[k] == g.Edges[i])
-//@     invariant forall k int, m int :: 0 <= k && m == k + 1 && m < len(sub.Edges) ==>
-//@       (exists i int, j int :: 0 <= i && i < j && j < b && sub.Edges[k] == g.Edges[i] && sub.Edges[m] == g.Edges[j])
+//@     invariant forall k int, m int :: 0 <= k && m == k + 1 && m < len(sub.Edges) ==> edgePos(sub.Edges[k]) < edgePos(sub.Edges[m])
